@@ -10,7 +10,13 @@
 (* matrix (det = 1 or -1) the inverse is the integer matrix det * adj.     *)
 (* Intended sizes: <= 4 routinely, <= 6 occasionally (cost n!).            *)
 (***************************************************************************)
-EXTENDS Integers, Sequences
+EXTENDS Integers, Sequences, TLC
+
+(* TLC evaluates a function constructor [x \in S |-> e] LAZILY and re-evaluates e at *)
+(* every application: nested matrix expressions then cost exponential time.  Every   *)
+(* operator below therefore builds its result with Mk, which forces (TLCEval) each    *)
+(* row and the sequence of rows into explicit tuples.                                 *)
+Mk(m, n, E(_, _)) == TLCEval([r \in 1..m |-> TLCEval([c \in 1..n |-> E(r, c)])])
 
 NRows(A) == Len(A)
 NCols(A) == IF Len(A) = 0 THEN 0 ELSE Len(A[1])
@@ -19,21 +25,22 @@ Shape(A) == <<NRows(A), NCols(A)>>
 IsMat(A, m, n) == /\ Len(A) = m
                   /\ \A r \in 1..m : Len(A[r]) = n
 
-Zero(m, n) == [r \in 1..m |-> [c \in 1..n |-> 0]]
-Ident(n)   == [r \in 1..n |-> [c \in 1..n |-> IF r = c THEN 1 ELSE 0]]
+Zero(m, n) == Mk(m, n, LAMBDA r, c : 0)
+Ident(n)   == Mk(n, n, LAMBDA r, c : IF r = c THEN 1 ELSE 0)
 
-MAdd(A, B)   == [r \in 1..NRows(A) |-> [c \in 1..NCols(A) |-> A[r][c] + B[r][c]]]
-MSub(A, B)   == [r \in 1..NRows(A) |-> [c \in 1..NCols(A) |-> A[r][c] - B[r][c]]]
-MNeg(A)      == [r \in 1..NRows(A) |-> [c \in 1..NCols(A) |-> 0 - A[r][c]]]
-MScale(k, A) == [r \in 1..NRows(A) |-> [c \in 1..NCols(A) |-> k * A[r][c]]]
-MT(A)        == [r \in 1..NCols(A) |-> [c \in 1..NRows(A) |-> A[c][r]]]
+MAdd(A, B)   == Mk(NRows(A), NCols(A), LAMBDA r, c : A[r][c] + B[r][c])
+MSub(A, B)   == Mk(NRows(A), NCols(A), LAMBDA r, c : A[r][c] - B[r][c])
+MNeg(A)      == Mk(NRows(A), NCols(A), LAMBDA r, c : 0 - A[r][c])
+MScale(k, A) == Mk(NRows(A), NCols(A), LAMBDA r, c : k * A[r][c])
+MT(A)        == Mk(NCols(A), NRows(A), LAMBDA r, c : A[c][r])
 
 \* sum_{k=1..n} f[k], n >= 0
 RECURSIVE SumTo(_, _)
 SumTo(f, n) == IF n = 0 THEN 0 ELSE f[n] + SumTo(f, n - 1)
 
-MMul(A, B) == [r \in 1..NRows(A) |-> [c \in 1..NCols(B) |->
-                 SumTo([k \in 1..NCols(A) |-> A[r][k] * B[k][c]], NCols(A))]]
+RECURSIVE DotTo(_, _, _, _, _)
+DotTo(A, B, r, c, k) == IF k = 0 THEN 0 ELSE A[r][k] * B[k][c] + DotTo(A, B, r, c, k - 1)
+MMul(A, B) == Mk(NRows(A), NCols(B), LAMBDA r, c : DotTo(A, B, r, c, NCols(A)))
 
 \* A^k, A square, k >= 0
 RECURSIVE MPow(_, _)
@@ -42,7 +49,7 @@ MPow(A, k) == IF k = 0 THEN Ident(NRows(A)) ELSE MMul(A, MPow(A, k - 1))
 IsZero(A) == \A r \in 1..NRows(A) : \A c \in 1..NCols(A) : A[r][c] = 0
 
 \* ---- blocks ------------------------------------------------------------
-HCat(A, B) == [r \in 1..NRows(A) |-> A[r] \o B[r]]      \* same number of rows
+HCat(A, B) == TLCEval([r \in 1..NRows(A) |-> A[r] \o B[r]])      \* same number of rows
 VCat(A, B) == A \o B                                    \* same number of columns
 
 \* a non-empty sequence of matrices side by side / on top of each other
@@ -52,24 +59,26 @@ RECURSIVE VCatAll(_)
 VCatAll(s) == IF Len(s) = 1 THEN s[1] ELSE VCat(s[1], VCatAll(Tail(s)))
 
 \* block matrix from a non-empty sequence of non-empty block rows
-BlockMat(bs) == VCatAll([i \in 1..Len(bs) |-> HCatAll(bs[i])])
+BlockMat(bs) == VCatAll(TLCEval([i \in 1..Len(bs) |-> HCatAll(bs[i])]))
 
 \* the nr x nc sub-matrix whose top-left corner is at (r0+1, c0+1)
-SubMat(A, r0, nr, c0, nc) == [r \in 1..nr |-> [c \in 1..nc |-> A[r0 + r][c0 + c]]]
+SubMat(A, r0, nr, c0, nc) == Mk(nr, nc, LAMBDA r, c : A[r0 + r][c0 + c])
 
 \* ---- determinant, adjugate --------------------------------------------
-DropAt(s, k) == [i \in 1..(Len(s) - 1) |-> IF i < k THEN s[i] ELSE s[i + 1]]
-Minor(A, i, j) == [r \in 1..(Len(A) - 1) |-> DropAt(DropAt(A, i)[r], j)]
+DropAt(s, k) == TLCEval([i \in 1..(Len(s) - 1) |-> IF i < k THEN s[i] ELSE s[i + 1]])
+Minor(A, i, j) == LET Ai == DropAt(A, i) IN TLCEval([r \in 1..(Len(A) - 1) |-> DropAt(Ai[r], j)])
 Sign(k) == IF k % 2 = 0 THEN 1 ELSE -1
 
 RECURSIVE Det(_)
-Det(A) == IF Len(A) = 1 THEN A[1][1]
-          ELSE SumTo([j \in 1..Len(A) |->
-                        IF A[1][j] = 0 THEN 0
-                        ELSE Sign(1 + j) * A[1][j] * Det(Minor(A, 1, j))], Len(A))
+RECURSIVE DetTo(_, _)
+Det(A) == IF Len(A) = 1 THEN A[1][1] ELSE DetTo(A, Len(A))
+\* the first j terms of the expansion along the first row
+DetTo(A, j) == IF j = 0 THEN 0
+               ELSE (IF A[1][j] = 0 THEN 0 ELSE Sign(1 + j) * A[1][j] * Det(Minor(A, 1, j)))
+                    + DetTo(A, j - 1)
 
 Cofactor(A, i, j) == IF Len(A) = 1 THEN 1 ELSE Sign(i + j) * Det(Minor(A, i, j))
-Adj(A) == [r \in 1..Len(A) |-> [c \in 1..Len(A) |-> Cofactor(A, c, r)]]
+Adj(A) == Mk(Len(A), Len(A), LAMBDA r, c : Cofactor(A, c, r))
 
 IsUnimodular(A) == Det(A) \in {1, -1}
 \* inverse of a unimodular matrix: (1/det) adj = det * adj since det = 1 or -1
